@@ -18,9 +18,10 @@ CONSTANTS TraceFile
 Trace == ndJsonDeserialize(TraceFile)
 
 VARIABLES l, hist, closer, viol, nread, bad,
-          thr    \* content id -> number of completed fsyncs at which its batch became durable (-1: unknown)
+          thr,   \* content id -> number of completed fsyncs at which its batch became durable (-1: unknown)
+          low    \* reader -> the earliest state (number of writer calls) that can have justified its previous read
 
-vars == <<l, hist, closer, viol, nread, bad, thr>>
+vars == <<l, hist, closer, viol, nread, bad, thr, low>>
 
 Ev == Trace[l]
 Is(k) == l <= Len(Trace) /\ Ev.ev = k
@@ -28,14 +29,14 @@ Adv == l' = l + 1
 V(clause) == viol' = viol \cup {[line |-> l, clause |-> clause]}
 Cur == hist[Len(hist)]
 
-Init == l = 1 /\ hist = <<Empty>> /\ closer = FALSE /\ viol = {} /\ nread = 0 /\ bad = FALSE /\ thr = <<>>
+Init == l = 1 /\ hist = <<Empty>> /\ closer = FALSE /\ viol = {} /\ nread = 0 /\ bad = FALSE /\ thr = <<>> /\ low = <<>>
 
-Reset == /\ Is("reset") /\ Adv /\ hist' = <<Empty>> /\ closer' = Ev.withCloser /\ bad' = FALSE /\ thr' = <<>>
+Reset == /\ Is("reset") /\ Adv /\ hist' = <<Empty>> /\ closer' = Ev.withCloser /\ bad' = FALSE /\ thr' = <<>> /\ low' = <<>>
          /\ UNCHANGED <<viol, nread>>
 
 (* writer calls, in program order *)
 WOp ==
-  /\ Is("wop") /\ Adv /\ UNCHANGED <<closer, nread, bad>>
+  /\ Is("wop") /\ Adv /\ UNCHANGED <<closer, nread, bad, low>>
   /\ thr' = IF Ev.op = "store" THEN [c \in DOMAIN thr \cup {Ev.cid} |-> IF c = Ev.cid THEN Ev.thr ELSE thr[c]] ELSE thr
   /\ LET nxt == IF Ev.res # "ok" THEN Cur
                 ELSE IF Ev.op = "store" THEN ApplyStore(Cur, <<Ev.idx>>, <<Ev.cid>>)
@@ -49,10 +50,30 @@ WOp ==
 
 States(from, to) == {hist[k + 1] : k \in {x \in from..to : x + 1 <= Len(hist)}}
 
+(* The calls of ONE reader are sequential: linearizability puts their effects in that order, so the state that       *)
+(* justifies a read cannot be older than the one that justified the same reader's previous read (choosing the earliest *)
+(* justifying state each time loses nothing).  K = the states current during this read in which its result is right.  *)
+Justifying ==
+  {k \in Ev.from..Ev.to :
+     /\ k + 1 <= Len(hist)
+     /\ LET s == hist[k + 1] IN
+        IF Ev.kind = "first" THEN Ev.res = "ok" /\ First(s) = Ev.val
+        ELSE IF Ev.kind = "last" THEN Ev.res = "ok" /\ Last(s) = Ev.val
+        ELSE IF Ev.res = "ok" THEN Get(s, Ev.idx) = Ev.val
+        ELSE IF Ev.res = "notfound" THEN Get(s, Ev.idx) = 0
+        ELSE FALSE}
+LowOf(p) == IF p \in DOMAIN low THEN low[p] ELSE 0
+SetMin(S) == CHOOSE x \in S : \A y \in S : x <= y
+
 Read ==
   /\ Is("read") /\ Adv /\ UNCHANGED <<hist, closer, bad, thr>> /\ nread' = nread + 1
+  /\ LET K == Justifying
+         K2 == {k \in K : k >= LowOf(Ev.p)}
+     IN low' = IF K2 # {} THEN [q \in DOMAIN low \cup {Ev.p} |-> IF q = Ev.p THEN SetMin(K2) ELSE low[q]] ELSE low
   /\ LET S == States(Ev.from, Ev.to) IN
-     IF Ev.res = "closed" THEN (IF closer /\ Ev.cs = 1 THEN UNCHANGED viol ELSE V("ClosedWithoutClose"))
+     IF Ev.res \in {"ok", "notfound"} /\ Justifying # {} /\ {k \in Justifying : k >= LowOf(Ev.p)} = {}
+     THEN V("ReadsWentBack")           \* justified on its own, but only by a state older than this reader has already seen
+     ELSE IF Ev.res = "closed" THEN (IF closer /\ Ev.cs = 1 THEN UNCHANGED viol ELSE V("ClosedWithoutClose"))
      ELSE IF Ev.kind = "first" THEN
           (IF Ev.res = "ok" /\ \E s \in S : First(s) = Ev.val THEN UNCHANGED viol ELSE V("FirstUnjustified"))
      ELSE IF Ev.kind = "last" THEN
@@ -71,32 +92,32 @@ Read ==
            THEN UNCHANGED viol ELSE V("ReadError"))
 
 StableEv ==
-  /\ Is("stable") /\ Adv /\ UNCHANGED <<hist, closer, nread, bad, thr>>
+  /\ Is("stable") /\ Adv /\ UNCHANGED <<hist, closer, nread, bad, thr, low>>
   \* a client that is the only writer of its key reads back what it wrote last (Get / GetUint64)
   /\ IF Ev.res = "ok" THEN (IF Ev.op \in {"get", "getu"} /\ Ev.val # Ev.want THEN V("StableWrong") ELSE UNCHANGED viol)
      ELSE IF Ev.res = "closed" /\ closer /\ Ev.cs = 1 THEN UNCHANGED viol
      ELSE V("StableError")
 
-CloseEv == /\ Is("close") /\ Adv /\ UNCHANGED <<hist, closer, nread, bad, thr>>
+CloseEv == /\ Is("close") /\ Adv /\ UNCHANGED <<hist, closer, nread, bad, thr, low>>
            /\ IF Ev.res = "ok" THEN UNCHANGED viol ELSE V("CloseError")
-Close2 == /\ Is("close2") /\ Adv /\ UNCHANGED <<hist, closer, nread, bad, thr>>
+Close2 == /\ Is("close2") /\ Adv /\ UNCHANGED <<hist, closer, nread, bad, thr, low>>
           /\ IF Ev.res = "ok" THEN UNCHANGED viol ELSE V("SecondCloseNotNoop")
-PostClose == /\ Is("postclose") /\ Adv /\ UNCHANGED <<hist, closer, nread, bad, thr>>
+PostClose == /\ Is("postclose") /\ Adv /\ UNCHANGED <<hist, closer, nread, bad, thr, low>>
              /\ IF Ev.res = "closed" THEN UNCHANGED viol ELSE V("NotClosedAfterClose")
-Goroutines == /\ Is("goroutines") /\ Adv /\ UNCHANGED <<hist, closer, nread, bad, thr>>
+Goroutines == /\ Is("goroutines") /\ Adv /\ UNCHANGED <<hist, closer, nread, bad, thr, low>>
               /\ IF Ev.rotator THEN V("RotatorStillRunning") ELSE UNCHANGED viol
-Handles == /\ Is("handles") /\ Adv /\ UNCHANGED <<hist, closer, nread, bad, thr>>
+Handles == /\ Is("handles") /\ Adv /\ UNCHANGED <<hist, closer, nread, bad, thr, low>>
            /\ IF Ev.n # 0 THEN V("HandlesLeaked") ELSE UNCHANGED viol
 (* C13 with readers: files of removed segments are gone once the readers are done *)
-DirCheck == /\ Is("dircheck") /\ Adv /\ UNCHANGED <<hist, closer, nread, bad, thr>>
+DirCheck == /\ Is("dircheck") /\ Adv /\ UNCHANGED <<hist, closer, nread, bad, thr, low>>
             /\ IF Ev.n # 0 THEN V("FilesNotReclaimed") ELSE UNCHANGED viol
-PanicEv == /\ Is("panic") /\ Adv /\ UNCHANGED <<hist, closer, nread, bad, thr>> /\ V("Panic")
-Stuck == /\ Is("stuck") /\ Adv /\ UNCHANGED <<hist, closer, nread, bad, thr>> /\ V("Deadlock")
-OpenErr == /\ (Is("open") \/ Is("preload")) /\ Adv /\ UNCHANGED <<hist, closer, nread, bad, thr>> /\ V("OpenFailed")
+PanicEv == /\ Is("panic") /\ Adv /\ UNCHANGED <<hist, closer, nread, bad, thr, low>> /\ V("Panic")
+Stuck == /\ Is("stuck") /\ Adv /\ UNCHANGED <<hist, closer, nread, bad, thr, low>> /\ V("Deadlock")
+OpenErr == /\ (Is("open") \/ Is("preload")) /\ Adv /\ UNCHANGED <<hist, closer, nread, bad, thr, low>> /\ V("OpenFailed")
 
 (* everything acknowledged before Close is present after the next Open *)
 Reopen ==
-  /\ Is("reopen") /\ Adv /\ UNCHANGED <<hist, closer, nread, bad, thr>>
+  /\ Is("reopen") /\ Adv /\ UNCHANGED <<hist, closer, nread, bad, thr, low>>
   /\ IF Ev.res # "ok" THEN V("ReopenFailed")
      ELSE IF Ev.first # First(Cur) \/ Ev.last # Last(Cur) THEN V("ReopenBounds")
      ELSE IF Ev.cids # Cur.c THEN V("ReopenContent")
@@ -104,12 +125,12 @@ Reopen ==
 
 (* the tail-index stress (concdrive segStress): a read of the live tail returned something other than "not found" *)
 (* or the entry appended at that index                                                                          *)
-Anomaly == /\ Is("anomaly") /\ Adv /\ V("TailReadAnomaly") /\ UNCHANGED <<hist, closer, nread, bad, thr>>
+Anomaly == /\ Is("anomaly") /\ Adv /\ V("TailReadAnomaly") /\ UNCHANGED <<hist, closer, nread, bad, thr, low>>
 
-Note == /\ l <= Len(Trace) /\ Ev.ev \in {"schedule", "note"} /\ Adv /\ UNCHANGED <<hist, closer, viol, nread, bad, thr>>
+Note == /\ l <= Len(Trace) /\ Ev.ev \in {"schedule", "note"} /\ Adv /\ UNCHANGED <<hist, closer, viol, nread, bad, thr, low>>
 
 Finish == /\ l = Len(Trace) + 1 /\ PrintT(<<"VIOL", ToJson([v |-> viol, nobs |-> nread])>>) /\ l' = l + 1
-          /\ UNCHANGED <<hist, closer, viol, nread, bad, thr>>
+          /\ UNCHANGED <<hist, closer, viol, nread, bad, thr, low>>
 
 Next == Reset \/ WOp \/ Read \/ StableEv \/ CloseEv \/ Close2 \/ PostClose \/ Goroutines \/ Handles \/ DirCheck \/ PanicEv
         \/ Stuck \/ OpenErr \/ Reopen \/ Note \/ Anomaly \/ Finish
